@@ -667,3 +667,15 @@ def quantised_heights(rng):
     base = float(rng.choice([300.0, 1000.0, 5000.0, 12000.0]))
     res = float(rng.choice([5.0, 10.0, 20.0]))
     return base + res * steps
+
+
+def quantised_scene(rng, nce=1):
+    """One thin overcast layer reported with a coarse resolution: the mixture fit is highly sensitive to
+    its random initialisation there, so any dependence on shared random state shows in the result."""
+    rows = []
+    names = ['q%d' % i for i in range(nce)]
+    for ci, c in enumerate(names):
+        hs = quantised_heights(rng)
+        for t, h in enumerate(hs):
+            rows.append([c, -15.0 * t - 0.5 * ci, float(h), 1])
+    return {'rows': dedupe(rows), 'names': names, 'order': 'desc', 'fam': 'quantised'}
